@@ -879,6 +879,58 @@ fn check_c05_sweep() {
     eprintln!("swept {} symbols", n);
 }
 
+// finite universal covers of spherical 2D symbols: a genuine covering with size(base) * |pi_1| chambers, where |pi_1| is obtained
+// independently of fundamental_group(): Todd-Coxeter (the coset_table of C11) over the TEXTBOOK presentation built here -- one generator per
+// (chamber, index), pairing relators, spanning-tree generators trivial, one relator per (chamber, index pair): the walk around the 2-orbit
+// raised to its branching number
+fn textbook_presentation<T: DSym>(ds: &T) -> (usize, Vec<FreeWord>) {
+    let (n, dim) = (ds.size(), ds.dim());
+    let id = |d: usize, i: usize| ((d - 1) * (dim + 1) + i + 1) as isize;
+    let mut rels: Vec<FreeWord> = vec![];
+    for d in 1..=n { for i in 0..=dim { let e = ds.op(i, d).unwrap(); rels.push(FreeWord::from(vec![id(d, i), id(e, i)])); } }
+    let mut seen = vec![false; n + 1]; seen[1] = true; let mut queue = std::collections::VecDeque::from([1usize]);
+    while let Some(d) = queue.pop_front() { for i in 0..=dim { let e = ds.op(i, d).unwrap(); if !seen[e] { seen[e] = true; queue.push_back(e); rels.push(FreeWord::from(vec![id(d, i)])); } } }
+    for d in 1..=n { for i in 0..=dim { for j in (i + 1)..=dim {
+        let mut word: Vec<isize> = vec![]; let mut cur = d; let mut r = 0usize;
+        loop { word.push(id(cur, i)); cur = ds.op(i, cur).unwrap(); word.push(id(cur, j)); cur = ds.op(j, cur).unwrap(); r += 1; if cur == d || r > 2 * n { break; } }
+        let m = ds.m(i, j, d).unwrap_or(0);
+        if r == 0 || m % r != 0 { continue; }
+        let mut full: Vec<isize> = vec![]; for _ in 0..(m / r) { full.extend(word.iter()); }
+        rels.push(FreeWord::from(full));
+    } } }
+    (n * (dim + 1), rels)
+}
+fn check_c05_universal() {
+    use rust_dsymbols::generators::dset_generators::DSets;
+    use rust_dsymbols::generators::dsym_generators::{DSyms, Geometries};
+    let max_size = if thorough() { 6usize } else { 4usize };
+    let mut n_checked = 0usize;
+    for dset in DSets::new(2, max_size) { for base in DSyms::new(&dset, Geometries::All) {
+        if !base.is_complete() || reach(&base, &[0, 1, 2], 1).len() != base.size() { continue; }
+        // curvature (own computation): sum over chambers of 1/m01 + 1/m12 - 1/2, as a fraction over 2 * lcm-free common denominator
+        let mut num: i64 = 0; let den: i64 = 2 * 3 * 4 * 5 * 6 * 7 * 8 * 9 * 10 * 11;     // degrees of generated symbols are small
+        let mut ok = true;
+        for d in 1..=base.size() { let (a, b) = (base.m(0, 1, d).unwrap_or(0) as i64, base.m(1, 2, d).unwrap_or(0) as i64); if a == 0 || b == 0 || den % a != 0 || den % b != 0 { ok = false; break; } num += den / a + den / b - den / 2; }
+        if !ok || num <= 0 { continue; }
+        let (ng, rels) = textbook_presentation(&base);
+        let order = match quiet(|| coset_table(ng, &rels, &vec![])) { Ok(t) => t.len(), Err(_) => continue };
+        if order * base.size() > 1000 { continue; }
+        n_checked += 1;
+        let txt = format!("finite_universal_cover({})", base);
+        match quiet(|| rust_dsymbols::covers::finite_universal_cover(&base)) {
+            Err(e) => falsified("finite_universal_cover", txt, format!("panic {}", e)),
+            Ok(u) => {
+                if !u.is_complete() || reach(&u, &[0, 1, 2], 1).len() != u.size() { falsified("finite_universal_cover", txt.clone(), "not complete and connected".into()); continue; }
+                if u.size() != order * base.size() { falsified("finite_universal_cover", txt.clone(), format!("{} chambers; the orbifold fundamental group (Todd-Coxeter over the textbook presentation) has order {}, so the universal cover has {} chambers", u.size(), order, order * base.size())); continue; }
+                if (1..=base.size()).all(|img| u.morphism(&base, img).map_or(true, |m| valid_morphism(&u, &base, &m).is_some() || m.iter().skip(1).any(|&x| x == 0))) { falsified("finite_universal_cover", txt.clone(), "does not map onto the base by a morphism".into()); continue; }
+                // trivial fundamental group, independently: the textbook presentation of the cover itself is trivial
+                if u.size() <= 60 { let (ng2, rels2) = textbook_presentation(&u); if let Ok(t2) = quiet(|| coset_table(ng2, &rels2, &vec![])) { if t2.len() != 1 { falsified("finite_universal_cover", txt.clone(), format!("the cover's own fundamental group has order {}", t2.len())); } } }
+            }
+        }
+    } }
+    eprintln!("universal covers checked: {}", n_checked);
+}
+
 // ------------------------------------------------------------------------------------------------ C13 (bounded stand-ins)
 // core table, intersection table and stabiliser presentation on subgroups of small groups with independently known order
 fn trace_from(t: &CosetTable, start: usize, w: &[isize]) -> Option<usize> { let mut r = start; for &g in w { r = t.get(r, g)?; } Some(r) }
@@ -924,11 +976,15 @@ fn check_c13() {
                     }
                 }
             }
-            // ---- stabiliser of row 0: generators fix the base row, generate a subgroup of the right index, presentation has the right order
-            match quiet(|| stabilizer(0, rels.clone(), t)) {
+            // ---- stabiliser of EVERY row (all rows of tables with at most 8 rows, else rows 0, 1 and the last one): generators fix the base row,
+            // generate a subgroup of the right index, presentation has the right order
+            let bases: Vec<usize> = if t.len() <= 8 { (0..t.len()).collect() } else { vec![0, 1, t.len() - 1] };
+            for &bp in &bases {
+            let txt = format!("{} base_row={}", txt, bp);
+            match quiet(|| stabilizer(bp, rels.clone(), t)) {
                 Err(e) => falsified("stabilizer", txt.clone(), format!("panic {}", e)),
                 Ok((sgens, srels)) => {
-                    for sg in &sgens { if trace_from(t, 0, &letters(sg)) != Some(0) { falsified("stabilizer", txt.clone(), format!("generator {:?} does not fix the base row", letters(sg))); } }
+                    for sg in &sgens { if trace_from(t, bp, &letters(sg)) != Some(bp) { falsified("stabilizer", txt.clone(), format!("generator {:?} does not fix the base row", letters(sg))); } }
                     match quiet(|| coset_table(n, rels, &sgens)) {
                         Ok(t2) => if t2.len() != t.len() { falsified("stabilizer", txt.clone(), format!("the generators generate a subgroup of index {}, the stabiliser has index {}", t2.len(), t.len())); },
                         Err(e) => falsified("stabilizer", txt.clone(), format!("coset enumeration over the generators panics: {}", e)),
@@ -941,6 +997,7 @@ fn check_c13() {
                         }
                     }
                 }
+            }
             }
         }
         // ---- intersection table: orbit of (0, 0) in the product action; fixes row 0 <=> fixes row 0 of both
@@ -964,12 +1021,51 @@ fn check_c13() {
     }
 }
 
+// tables with more than 256 rows (regular actions of Z_300 and of the dihedral group of order 260): core_table and stabilizer must not
+// depend on the row numbers being small
+fn check_c13_large() {
+    use rust_dsymbols::fpgroups::stabilizer::stabilizer;
+    let w = |v: &[isize]| FreeWord::from(v.to_vec());
+    let groups: Vec<(usize, Vec<FreeWord>, usize)> = vec![
+        (1, vec![w(&vec![1isize; 300])], 300),
+        (2, vec![w(&vec![1isize; 130]), w(&[2, 2]), w(&[1, 2, 1, 2])], 260),
+    ];
+    for (n, rels, order) in &groups {
+        let (n, order) = (*n, *order);
+        let txt = format!("gens={} relator lengths={:?} (regular action, {} rows)", n, rels.iter().map(|r| r.len()).collect::<Vec<_>>(), order);
+        let t = match quiet(|| coset_table(n, rels, &vec![])) { Ok(t) => t, Err(e) => { falsified("coset_table", txt.clone(), format!("panic {}", e)); continue; } };
+        if t.len() != order { falsified("coset_table", txt.clone(), format!("{} rows, the group has order {}", t.len(), order)); continue; }
+        match quiet(|| core_table(&t)) {
+            Err(e) => falsified("core_table", txt.clone(), format!("panic {}", e)),
+            Ok(core) => {
+                // the action is regular, so the permutation group it generates has as many elements as the table has rows
+                if core.len() != order { falsified("core_table", txt.clone(), format!("{} rows, the action generates a permutation group of order {}", core.len(), order)); }
+                else {
+                    let mut test_words: Vec<Vec<isize>> = vec![vec![1; 299], vec![1; 300], vec![-1; 150], vec![1; 130], vec![1; 260]];
+                    if n == 2 { test_words.extend(vec![vec![2, 2], vec![1, 2, 1, 2], vec![2, 1, 2], vec![1, 2], [vec![1; 129], vec![2, 1, 2]].concat(), [vec![1; 131], vec![2, -1, 2]].concat()]); }
+                    for tw in &test_words {
+                        let all_fixed = (0..t.len()).all(|r| trace_from(&t, r, tw) == Some(r));
+                        let core_fixed = trace_from(&core, 0, tw) == Some(0);
+                        if all_fixed != core_fixed { falsified("core_table", txt.clone(), format!("word of length {}: fixes all rows of the input = {}, fixes row 0 of the core = {}", tw.len(), all_fixed, core_fixed)); break; }
+                    }
+                }
+            }
+        }
+        for &bp in &[0usize, 257] {
+            match quiet(|| stabilizer(bp, rels.clone(), &t)) {
+                Err(e) => falsified("stabilizer", format!("{} base_row={}", txt, bp), format!("panic {}", e)),
+                Ok((sgens, _)) => { for sg in &sgens { if trace_from(&t, bp, &letters(sg)) != Some(bp) { falsified("stabilizer", format!("{} base_row={}", txt, bp), format!("a generator of length {} does not fix the base row", sg.len())); break; } } }
+            }
+        }
+    }
+}
+
 fn main() {
     let prop = std::env::args().nth(1).unwrap_or_default();
     std::panic::set_hook(Box::new(|_| {}));
     match prop.as_str() {
-        "C01" => check_c01(), "C02" => { check_c02(); check_c02_graph(); check_c02_plain_r(); }, "C04" => { check_c04(); check_c04_minimal(); }, "C05" => { check_c05(); check_c05_covers(); check_c05_count(); if thorough() { check_c05_sweep(); } },
-        "C10" => check_c10(), "C11" => { check_c11(); check_c11_random(); check_c11_exhaustive(); }, "C18" => { check_c18(); check_c18_exact(); check_c18_modular(); }, "C20" => { check_c20(); check_c20_unions(); }, "C13" => check_c13(),
+        "C01" => check_c01(), "C02" => { check_c02(); check_c02_graph(); check_c02_plain_r(); }, "C04" => { check_c04(); check_c04_minimal(); }, "C05" => { check_c05(); check_c05_covers(); check_c05_universal(); check_c05_count(); if thorough() { check_c05_sweep(); } },
+        "C10" => check_c10(), "C11" => { check_c11(); check_c11_random(); check_c11_exhaustive(); }, "C18" => { check_c18(); check_c18_exact(); check_c18_modular(); }, "C20" => { check_c20(); check_c20_unions(); }, "C13" => { check_c13(); check_c13_large(); },
         _ => { eprintln!("unknown property"); std::process::exit(2); }
     }
     unsafe { println!("falsifier finished: {} discrepancies", COUNT); }
